@@ -59,6 +59,13 @@ def escBacktick : Str → Str
   | [] => []
   | c :: r => if c = '`' then '`' :: '+' :: '"' :: '`' :: '"' :: '+' :: '`' :: escBacktick r else c :: escBacktick r
 
+/-- generateReadableSpec also writes a byte order mark (illegal in Go source) as its JSON escape \\ufeff -/
+def escBOM : Str → Str
+  | [] => []
+  | c :: r => if c = '\uFEFF' then '\\' :: 'u' :: 'f' :: 'e' :: 'f' :: 'f' :: escBOM r else c :: escBOM r
+
+def readable (s : Str) : Str := escBacktick (escBOM s)
+
 /-- the connector between two raw literals: +"`"+` -/
 def conn : List Char := ['+', '"', '`', '"', '+', '`']
 
